@@ -2,7 +2,7 @@
    Statements only; proofs in Proofs/Citations*.v; the vocabulary of the statements (dedup_ci,
    threshold_hits, missing_of, dangling_of, parents_follow_children ...) is Spec/Citations.v. *)
 From Pybtex Require Import Base.Prelude Base.PyChar Base.PyStr Model.Citations Spec.Citations
-  Proofs.CitationsBase Proofs.Citations Proofs.CitationsFiltered Proofs.CitationsMore Proofs.CitationsReports.
+  Proofs.CitationsBase Proofs.Citations Proofs.CitationsFiltered Proofs.CitationsMore Proofs.CitationsReports Proofs.CitationsFile.
 
 Definition K (s : string) : key := s2l s.
 
@@ -62,6 +62,37 @@ Theorem missing_and_dangling_reported : forall db cites m final rs,
   (forall c, In c ex -> ed_mem c E = false -> In c (missing_reports rs) /\ ~ In c final).
 Proof. exact command_read_reports. Qed.
 Print Assumptions missing_and_dangling_reported.
+
+(* the same in terms of the FILE: a reported missing key is cited, is in no entry of the file and is not
+   kept; and every cited key (other than '*') that no entry of the file has is reported *)
+Theorem missing_iff_absent_from_file : forall db cites m,
+  let rs := snd (command_read_raw db cites m) in
+  (forall c, In c (missing_reports rs) ->
+     existsb (keyb c) cites = true /\ existsb (keyb c) (map fst db) = false /\ ~ In c (fst (command_read_raw db cites m))) /\
+  (forall c, In c cites -> c <> star -> existsb (keyb c) (map fst db) = false ->
+     exists c', keyb c c' = true /\ In c' (missing_reports rs)).
+Proof. exact missing_file_lemma. Qed.
+Print Assumptions missing_iff_absent_from_file.
+
+(* what the readings store, in terms of the file: reading everything stores a key iff the file has it;
+   reading filtered by the citations stores every cited key the file has -- namely the FIRST entry of
+   that key in the file (crossref included) under a spelling equal to the file's up to case *)
+Theorem reading_keeps_cited : forall db,
+  (forall q, ed_mem q (bd_entries (read_db None db)) = existsb (keyb q) (map fst db)) /\
+  (forall cites q, existsb (keyb q) cites = true ->
+     ed_mem q (bd_entries (read_db (Some cites) db)) = existsb (keyb q) (map fst db)) /\
+  (forall cites q e, existsb (keyb q) cites = true -> find (fun e => keyb q (fst e)) db = Some e ->
+     exists k', ed_get q (bd_entries (read_db (Some cites) db)) = Some (k', snd e) /\ keyb k' (fst e) = true).
+Proof. exact reading_lemma. Qed.
+Print Assumptions reading_keeps_cited.
+
+(* error modes: in strict mode command_read raises exactly when something is reported; under capture never *)
+Theorem strict_mode : forall db cites m,
+  (command_read db cites m true = PyErr 0 (-1) <-> snd (command_read_raw db cites m) <> []) /\
+  (snd (command_read_raw db cites m) = [] -> command_read db cites m true = Ok (fst (command_read_raw db cites m), [])) /\
+  command_read db cites m false = Ok (command_read_raw db cites m).
+Proof. exact strict_mode_lemma. Qed.
+Print Assumptions strict_mode.
 
 (* the same for BaseStyle.format_bibliography (keys emitted under the spelling they are stored under) *)
 Theorem format_bibliography_reported : forall E cites m final rs,
